@@ -442,10 +442,18 @@ pub fn run(ctx: &Ctx) -> Report {
     rep.sample(json!({"function": "0xe8", "order": [1, 0, 2], "query": [2, 0], "weights": {"x0": [0.0, 1.0], "x1": [0.5, 0.5], "x2": [1.0, 0.5]}}));
     rep.assumptions.push("dyadic weights keep all f64 products and sums exact, so optima are compared with == and the strict-improvement pruning is decidable".into());
     rep.assumptions.push("'weighted count of the restricted function' is the count over the variables the restricted function depends on (C07), times the query literals' own weights for marginal MAP / bb".into());
+    // wide managers: labels that collide modulo 32 / 64 and straddle 2^5 .. 2^8 (wide.rs)
+    if !disabled("wide") {
+        let w = crate::props::wide::optimum(ctx);
+        rep.merge(w);
+    }
     rep
 }
 
 pub fn replay(_ctx: &Ctx, case: &Value) -> Report {
+    if let Some(r) = crate::props::wide::replay(_ctx, case) {
+        return r;
+    }
     let mut rep = Report::default();
     let arr = |v: &Value| -> Vec<usize> { v.as_array().map(|a| a.iter().filter_map(|x| x.as_u64()).map(|x| x as usize).collect()).unwrap_or_default() };
     let c = Case {
